@@ -14,6 +14,7 @@ import (
 	"errors"
 	"fmt"
 	"math/big"
+	"net"
 	"net/http/httptest"
 	"os"
 	"strconv"
@@ -189,6 +190,9 @@ type scanRec struct {
 	To    int
 	Open  bool
 	Notes []string
+	// Abandoned: the scan never logged "processed new header" and the harness gave up waiting for it (hand-over scenarios: the
+	// goroutine that ran it ended, or hangs, in the middle of the scan)
+	Abandoned bool
 }
 
 type evmSim struct {
@@ -561,6 +565,38 @@ type simServer struct {
 	srv *rpc.Server
 	hs  *httptest.Server
 	url string
+	ln  *trackingListener
+}
+
+// trackingListener remembers the accepted connections: websocket connections are hijacked, httptest's CloseClientConnections
+// does not reach them, and the hand-over scenarios drop the watcher's connection while the node itself stays up
+type trackingListener struct {
+	net.Listener
+	mu    sync.Mutex
+	conns []net.Conn
+}
+
+func (l *trackingListener) Accept() (net.Conn, error) {
+	c, err := l.Listener.Accept()
+	if err == nil {
+		l.mu.Lock()
+		l.conns = append(l.conns, c)
+		l.mu.Unlock()
+	}
+	return c, err
+}
+
+// dropConnections closes every connection the node has accepted so far (the watcher's subscriptions and calls fail; a new
+// dial succeeds)
+func (s *simServer) dropConnections() int {
+	s.ln.mu.Lock()
+	conns := s.ln.conns
+	s.ln.conns = nil
+	s.ln.mu.Unlock()
+	for _, c := range conns {
+		c.Close()
+	}
+	return len(conns)
 }
 
 func startSim(head uint64) (*simServer, error) {
@@ -569,8 +605,11 @@ func startSim(head uint64) (*simServer, error) {
 	if err := srv.RegisterName("eth", sim); err != nil {
 		return nil, err
 	}
-	hs := httptest.NewServer(srv.WebsocketHandler([]string{"*"}))
-	return &simServer{sim: sim, srv: srv, hs: hs, url: "ws" + strings.TrimPrefix(hs.URL, "http")}, nil
+	hs := httptest.NewUnstartedServer(srv.WebsocketHandler([]string{"*"}))
+	ln := &trackingListener{Listener: hs.Listener}
+	hs.Listener = ln
+	hs.Start()
+	return &simServer{sim: sim, srv: srv, hs: hs, url: "ws" + strings.TrimPrefix(hs.URL, "http"), ln: ln}, nil
 }
 
 func (s *simServer) stop() {
